@@ -33,7 +33,9 @@ GEN_CELL_CAP = 3500
 NAME_POOL = ["Data", "data", "Summary", "Σ", "Table 1", "Table 2", "table 3", "Sheet 2", "Ünïcode", "A", "", "x y", "tab\tname", "名前",
              "Caf\u00e9", "Cafe\u0301", "\u00c5", "\u212b", "A\u030a", "Data ", " Data", "x  y", "\u1e9e", "SS",
              # characters whose case-folded form differs from their lower-case form, or whose lower-case form is longer
-             "Stra\u00dfe", "stra\u00dfe", "\ufb01n", "\u03c3\u03af\u03c3\u03c5\u03c6\u03bf\u03c2", "\u0130", "\u01f0"]
+             "Stra\u00dfe", "stra\u00dfe", "\ufb01n", "\u03c3\u03af\u03c3\u03c5\u03c6\u03bf\u03c2", "\u0130", "\u01f0",
+             # equal when lower-cased although their lengths differ
+             "\u0130stanbul", "i\u0307stanbul"]
 
 
 def pick_shape(rng, cls=None):
